@@ -26,6 +26,7 @@ def to_str(n):
 
 def abstract(s: str):
     """string -> [lead, comps, trail] with components reduced to the classes the specification distinguishes"""
+    s = s.replace("\\", "/")          # the 7z name table knows the backslash as a separator too (py7zr's reader turns it into '/')
     lead = len(s) - len(s.lstrip("/"))
     rest = s[lead:]
     trail = rest.endswith("/")
@@ -167,6 +168,11 @@ def run(tier, rep, ev):
         for via in ("writestr", "writef"):
             traces.append(session(py7zr, ["plain.txt", s], via))
             ev.case(("surrogate", i, via))
+    # the same traversal shapes spelled with backslashes (as the name table of an archive made on Windows would hold them)
+    for i, s in enumerate(["\\etc\\passwd", "..\\..\\x", "a\\..\\..\\..\\x", "\\\\server\\share\\x", "a\\b\\c.txt", "a\\..\\b", "ok/..\\..\\y", "d\\"]):
+        for via in ("writestr", "writef"):
+            traces.append(session(py7zr, ["plain.txt", s, "after.txt"], via))
+            ev.case(("backslash", i, via))
     # random Unicode names with traversal shapes
     alph = ["..", ".", "", "ä", "日本", "\U0001F600", " x", "c:", ".hidden", "a\tb", "dafj08sajfa", "a90sufoiasj09", "..."]
     for i in range(nsess):
@@ -236,7 +242,8 @@ def _write_sessions(py7zr, R, tier, ev):
     root = scratch("c16tree")
     tree = os.path.join(root, "t")
     os.makedirs(os.path.join(tree, "d1", "d2"))
-    for rel in ["f0", "d1/f1", "d1/d2/f2", "d1/c:x"]:
+    # (on POSIX a backslash is an ordinary character of a file name: "\\abs" is a relative source path - and a leading separator once stored)
+    for rel in ["f0", "d1/f1", "d1/d2/f2", "d1/c:x", "\\abs", "d1/\\inner", "..\\up"]:
         with open(os.path.join(tree, rel), "w") as f:
             f.write(rel)
     os.makedirs(os.path.join(tree, "c:"), exist_ok=True)
@@ -247,7 +254,7 @@ def _write_sessions(py7zr, R, tier, ev):
                 os.path.join(tree, "c:", "g"), os.path.join(tree, "c:")]
     try:
         os.chdir(tree)
-        srcs_rel = ["f0", "d1", "./d1/f1", "d1/d2/../d2/f2", "c:/g", "c:", "d1/c:x", "."]
+        srcs_rel = ["f0", "d1", "./d1/f1", "d1/d2/../d2/f2", "c:/g", "c:", "d1/c:x", ".", "\\abs", "..\\up"]
         for use_all in (False, True):
             for srcs in (srcs_abs, srcs_rel):
                 for s in srcs:
